@@ -15,7 +15,7 @@ type Member struct {
 	TV       *TermVote
 	leading  map[int]uint64
 	commit   map[int]uint64
-	prevConf map[int]*raft.Configuration // configuration each node had at the previous quiescent point
+	prevConf map[int]*raft.Configuration            // configuration each node had at the previous quiescent point
 	confLog  map[int]map[uint64]*raft.Configuration // mirror of the configuration entries of every log
 	pending  *common.Violation
 	doneOps  map[int]bool
